@@ -1,4 +1,134 @@
+import Ledger.Sql.Session
+import Ledger.Sql.Decode
+import Ledger.Generated.Schema
 import Ledger.Driver.Core
 
-/-! `ldriver_sql`: correspondence driver for the Sql area (core-only). -/
-def main : IO Unit := Ledger.Driver.runDriver []
+/-!
+`ldriver_sql` (= `lpg`): LeanPG, the modelled PostgreSQL, as a JSON line server
+(one request per stdin line, one answer per stdout line). Core-only.
+
+A line with a field `"k"` is a LeanPG request (below). A line with a field `"f"`
+is a correspondence case `{"f":handler,"in":…,"out":…}` of the shared driver
+protocol (`Ledger/Driver/Core.lean`) and is answered with a verdict by the
+handlers registered in `sqlHandlers`.
+
+Requests:
+* `{"k":"open","s":N}` / `{"k":"close","s":N}` / `{"k":"drop","s":N}` / `{"k":"abort","s":N}`
+* `{"k":"bucket","name":B}` — instantiate `Generated.Schema.bucket` under B
+* `{"k":"sql","s":N,"ast":[…],"retry":bool?,"now":µs?}` →
+  `{"cols":[…],"rows":[[…]],"n":affected}` | `{"blocked":"…"}` |
+  `{"err":{"code":SQLSTATE,"msg":…,"constraint":…}}`
+* `{"k":"dump","ledger":L}` → `{"dump":{table:[row…]}}`
+* `{"k":"clock","us":N}`, `{"k":"ping"}`
+-/
+open Lean Ledger.Sql
+
+def errJson (e : Err) : Json :=
+  match e with
+  | .pg code msg k => Json.mkObj [("err", Json.mkObj [("code", code), ("msg", msg), ("constraint", k)])]
+  | .blocked on _ _ => Json.mkObj [("blocked", on)]
+  | .unsupported msg => Json.mkObj [("err", Json.mkObj [("code", "0A000"), ("msg", "LeanPG: unsupported: " ++ msg), ("constraint", "")])]
+  | .fuel => Json.mkObj [("err", Json.mkObj [("code", "XX000"), ("msg", "LeanPG: evaluation fuel exhausted"), ("constraint", "")])]
+
+def resultJson (r : StmtResult) : Json :=
+  Json.mkObj [
+    ("cols", Json.arr (r.cols.map Json.str).toArray),
+    ("rows", Json.arr (r.rows.map (fun row => Json.arr (row.map valueToWire).toArray)).toArray),
+    ("n", Json.num ⟨r.affected, 0⟩)]
+
+def natField (j : Json) (k : String) : Except String Nat :=
+  match j.getObjVal? k with
+  | .ok (.num n) => pure n.mantissa.toNat
+  | _ => throw s!"missing numeric field {k}"
+
+def handle (w : World) (j : Json) : World × Json :=
+  let fatal (m : String) : World × Json := (w, Json.mkObj [("fatal", m)])
+  match j.getObjValAs? String "k" with
+  | .error _ => fatal "request without k"
+  | .ok k =>
+    match k with
+    | "ping" => (w, Json.mkObj [("ok", true)])
+    | "open" =>
+      match natField j "s" with
+      | .ok s => (w.setSession { id := s }, Json.mkObj [("ok", true)])
+      | .error e => fatal e
+    | "close" | "drop" =>
+      match natField j "s" with
+      | .ok s =>
+        let w := closeSession w s
+        -- a dropped connection can be reused by number: keep it registered
+        let w := if k == "drop" then w.setSession { id := s } else w
+        (w, Json.mkObj [("ok", true)])
+      | .error e => fatal e
+    | "abort" =>
+      match natField j "s" with
+      | .ok s => (abortSession w s, Json.mkObj [("ok", true)])
+      | .error e => fatal e
+    | "bucket" =>
+      match j.getObjValAs? String "name" with
+      | .ok b => (instantiateBucket w Ledger.Generated.Schema.bucket b, Json.mkObj [("ok", true)])
+      | .error e => fatal e
+    | "clock" =>
+      match j.getObjVal? "us" with
+      | .ok (.num n) => ({ w with clock := n.mantissa }, Json.mkObj [("ok", true)])
+      | _ => fatal "clock without us"
+    | "dump" =>
+      match j.getObjValAs? String "ledger" with
+      | .ok l => (w, Json.mkObj [("dump", dumpLedger w l)])
+      | .error e => fatal e
+    | "sql" =>
+      match natField j "s", j.getObjVal? "ast" with
+      | .ok s, .ok ast =>
+        match Decode.stmt ast with
+        | .error e => fatal s!"cannot decode statement: {e}"
+        | .ok stmt =>
+          let retry := match j.getObjVal? "retry" with | .ok (.bool b) => b | _ => false
+          let now := match j.getObjVal? "now" with | .ok (.num n) => some n.mantissa | _ => none
+          let (w', res) := execTop w s stmt retry now
+          match res with
+          | .ok r => (w', resultJson r)
+          | .error e => (w', errJson e)
+      | _, _ => fatal "sql request needs s and ast"
+    | other => fatal s!"unknown request kind {other}"
+
+/-- correspondence handlers of the Sql area (added by the property builders) -/
+def sqlHandlers : List (String × Ledger.Driver.Handler) := []
+
+def verdictLine (j : Json) (i : Nat) : Json :=
+  let res : Except String Ledger.Driver.Verdict := do
+    let f ← Ledger.Driver.strField j "f"
+    let inp ← Ledger.Driver.field j "in"
+    let o ← Ledger.Driver.field j "out"
+    match sqlHandlers.lookup f with
+    | some hd => hd inp o
+    | none => throw s!"no handler for {f}"
+  match res with
+  | .ok v => v.toJson i
+  | .error e => Json.mkObj [("i", i), ("error", e)]
+
+partial def loop (stdin stdout : IO.FS.Stream) (w : World) (i : Nat := 0) : IO Unit := do
+  let line ← stdin.getLine
+  if line.isEmpty then return ()
+  let t := line.trimAscii.toString
+  if t.isEmpty then loop stdin stdout w i else
+  match Json.parse t with
+  | .error e =>
+    stdout.putStrLn (Json.mkObj [("fatal", s!"bad JSON: {e}")]).compress
+    stdout.flush
+    loop stdin stdout w i
+  | .ok j =>
+    match j.getObjVal? "f" with
+    | .ok _ =>
+      stdout.putStrLn (verdictLine j i).compress
+      stdout.flush
+      loop stdin stdout w (i + 1)
+    | .error _ =>
+      let (w', resp) := handle w j
+      stdout.putStrLn resp.compress
+      stdout.flush
+      loop stdin stdout w' i
+
+def main : IO Unit := do
+  let stdin ← IO.getStdin
+  let stdout ← IO.getStdout
+  loop stdin stdout {}
